@@ -61,7 +61,10 @@ Proof. exact sum_balances. Qed.
 Print Assumptions C08_sum_balances.
 
 (* the denom, contract and alias indexes and the bank-metadata aliases describe the same set of pairs, over every
-   history of register / toggle / alias update / removal of a pair whose contract self-destructed *)
+   history of register / toggle / alias update / removal of a pair whose contract self-destructed / genesis export +
+   import, provided the import rebuilds the alias index from the bank metadata (IExportImport true; no_export excludes
+   only IExportImport false, the InitGenesis that drops the alias index).  Which variant the code under check is, is
+   probed on the real application at every run and used in the correspondence. *)
 Theorem C08_indexes : forall ops, forallb no_export ops = true -> forall s, idx_ok s -> idx_ok (isteps s ops).
 Proof. exact indexes_consistent. Qed.
 Print Assumptions C08_indexes.
@@ -72,15 +75,26 @@ Theorem C08_pair_indexes : forall ops s, pidx_ok s -> pidx_ok (isteps s ops).
 Proof. exact pair_indexes_consistent. Qed.
 Print Assumptions C08_pair_indexes.
 
-(* the unguarded reading of C08_indexes is false on the code as it is (genuine defect C08-2): a genesis export + import
-   loses the alias index while the bank metadata keeps the aliases; afterwards an alias of one denom can be registered
-   as an alias of another one.  The harness replays both on the real application. *)
+(* with the InitGenesis that does not rebuild the alias index (genuine defect C08-2) the reading is false: a genesis export +
+   import loses the alias index while the bank metadata keeps the aliases; afterwards an alias of one denom can be registered
+   as an alias of another one.  The harness replays both on the real application whenever the probe finds that variant. *)
 Theorem C08_indexes_export_import_refuted :
   idx_ok i_empty /\ forallb no_export ex_export_hist = false /\
   let s := isteps i_empty ex_export_hist in
   ohas 10 (by_denom s) = true /\ In 11 (metal s 10) /\ oget 11 (alias s) = None /\ ~ idx_ok s.
 Proof. exact indexes_export_import_refuted. Qed.
 Print Assumptions C08_indexes_export_import_refuted.
+
+(* the rebuilding import is the identity on the alias index whenever the indexes are consistent *)
+Theorem C08_export_import_rebuild_identity : forall s a, idx_ok s -> oget a (rebuild_aliases s) = oget a (alias s).
+Proof. exact rebuild_identity. Qed.
+Print Assumptions C08_export_import_rebuild_identity.
+
+Theorem C08_export_import_rebuilt_witness :
+  let s := isteps i_empty [IRegisterCoin 10 [11; 12] 500; IExportImport true] in
+  oget 11 (alias s) = Some 10 /\ oget 12 (alias s) = Some 10 /\ idx_ok s /\ snd (istep s (IRegisterCoin 20 [11] 501)) = false.
+Proof. exact export_import_rebuilt_witness. Qed.
+Print Assumptions C08_export_import_rebuilt_witness.
 
 Theorem C08_alias_reusable_after_export_import :
   let s := isteps i_empty ex_export_hist in
